@@ -17,7 +17,8 @@ TY_OPS = [("adv", 0.5), ("adv", 1.0), ("adv", 2.5), ("adv", 0.1), ("rew", 0.5), 
           ("start", None, None), ("start", 1.0, None), ("start", 0.0, None), ("start", 0.1, None), ("start", None, 0.5),
           ("start", 2.5, 3.0), ("restart", None), ("restart", 0.5), ("wind", "same"), ("wind", "other")]
 MO_OPS = [("clk", 0.5), ("clk", 2.0), ("clk", -0.5), ("clk", -2.0), ("read", "exr"), ("read", "xre"), ("read", "rxe"),
-          ("start", None), ("start", 1.0), ("restart",)]   # read: order in which elapsed / expired / remaining are read
+          ("start", None), ("start", 1.0), ("restart",), ("dropafter", 0.5)]   # read: order in which elapsed / expired / remaining are read
+# dropafter: the clock steps back right after its next reading (a step that lands between two readings of one operation)
 
 
 # boundary sweep: non-dyadic starts and durations, tyme placed on and one / two ulps around every start and stop
@@ -98,9 +99,14 @@ def run_tybound(case, states=None):
 class Clock:
     def __init__(self):
         self.t = 100.0
+        self.drop = 0.0      # the clock steps back by this much right AFTER its next reading (between two readings of one operation)
 
     def time(self):
-        return self.t
+        t = self.t
+        if self.drop:
+            self.t -= self.drop
+            self.drop = 0.0
+        return t
 
 
 def run_tymer(seq, states=None):
@@ -154,14 +160,24 @@ def run_mono(retro, seq, states=None):
     try:
         tm = timing.MonoTimer(duration=1.0, retro=retro)
         last_el, was_exp = None, False
+        forward = True                       # the clock has not gone backwards so far: then the timer is plain arithmetic
+        mstart, mdur = clk.t, 1.0            # model period (start, duration) while forward
         for k, op in enumerate(seq):
             if op[0] == "clk":
                 clk.t = clk.t + op[1]
+                if op[1] < 0:
+                    forward = False
+                continue
+            if op[0] == "dropafter":
+                clk.drop = op[1]
+                forward = False
                 continue
             if op[0] == "start":
+                stepped = bool(clk.drop)              # the clock steps back right after the reading this start() makes
                 tm.start(duration=op[1])
+                mstart, mdur = clk.t, (op[1] if op[1] is not None else mdur)
                 last_el, was_exp = None, False
-                if k + 1 < len(seq) and seq[k + 1][0] == "read":      # read at the very clock value the period was started at
+                if not stepped and k + 1 < len(seq) and seq[k + 1][0] == "read":      # read at the very clock value the period was started at
                     try:
                         el = tm.elapsed
                     except timing.RetroTimerError:
@@ -175,6 +191,7 @@ def run_mono(retro, seq, states=None):
                 continue
             if op[0] == "restart":
                 tm.restart()
+                mstart = mstart + mdur               # lossless: the next period begins at the previous stop
                 last_el, was_exp = None, False
                 continue
             try:
@@ -187,6 +204,10 @@ def run_mono(retro, seq, states=None):
                     v.append(("mono:raises-with-retro", "RetroTimerError with retro=True after %r" % (seq[:k + 1],)))
                     break
                 continue
+            if forward and (el, rem) != (clk.t - mstart, mstart + mdur - clk.t):
+                v.append(("mono:forward-clock-arithmetic:retro=%s" % retro, "clock never went backwards, period starts at %r for %r, now %r: elapsed %r "
+                          "remaining %r after %r" % (mstart, mdur, clk.t, el, rem, seq[:k + 1])))
+                break
             if last_el is not None and el < last_el:
                 v.append(("mono:elapsed-decreased:retro=%s" % retro, "elapsed went %r -> %r after %r" % (last_el, el, seq[:k + 1])))
                 break
